@@ -3,6 +3,7 @@ package main
 // C20 — progress line: clamp and ladder structure.
 
 import (
+	"go/types"
 	"fmt"
 	"go/token"
 	"strings"
@@ -235,15 +236,35 @@ func c20R4(c *Ctx) {
 	if done == nil {
 		c.lost("ladder exit block in getProgressText")
 	}
-	phis := map[string]*ssa.Phi{}
+	// the three merged values at the ladder exit, identified by role: the (possibly shortened) name is the string
+	// that can come out of getEllipsisString, its display width is the integer, the right-hand part is the other string
+	var pl, pw, pr *ssa.Phi
 	for _, in := range done.Instrs {
-		if p, ok := in.(*ssa.Phi); ok {
-			phis[p.Comment] = p
+		p, ok := in.(*ssa.Phi)
+		if !ok {
+			continue
+		}
+		if bt, isB := p.Type().Underlying().(*types.Basic); isB && bt.Info()&types.IsInteger != 0 {
+			if pw != nil {
+				c.lost("a single integer (name width) at the ladder exit")
+			}
+			pw = p
+			continue
+		}
+		fromEllipsis := false
+		for _, l := range origins(p, originOpts{}) {
+			if call, idx := callOf(l.V); call != nil && idx == 0 && calleeID(&call.Call) == "trzsz.getEllipsisString" {
+				fromEllipsis = true
+			}
+		}
+		if fromEllipsis {
+			pl = p
+		} else {
+			pr = p
 		}
 	}
-	pl, pw, pr := phis["left"], phis["leftLength"], phis["right"]
 	if pl == nil || pw == nil || pr == nil {
-		c.lost("left/leftLength/right at the ladder exit")
+		c.lost("name / name width / right part at the ladder exit")
 	}
 	fallbacks := 0
 	for k, p := range done.Preds {
@@ -353,7 +374,22 @@ func c20R5(c *Ctx) {
 	n := 0
 	eachInstr(f, func(in ssa.Instruction) {
 		p, ok := in.(*ssa.Phi)
-		if !ok || p.Comment != "length" {
+		if !ok {
+			return
+		}
+		// the width accumulator, by role: the integer phi one of whose edges adds a RuneWidth result to it
+		isAcc := false
+		for _, e := range p.Edges {
+			if b, ok := e.(*ssa.BinOp); ok && b.Op == token.ADD && (b.X == ssa.Value(p) || b.Y == ssa.Value(p)) {
+				if cx, _ := callOf(b.X); cx != nil && calleeID(&cx.Call) == "github.com/mattn/go-runewidth.RuneWidth" {
+					isAcc = true
+				}
+				if cy, _ := callOf(b.Y); cy != nil && calleeID(&cy.Call) == "github.com/mattn/go-runewidth.RuneWidth" {
+					isAcc = true
+				}
+			}
+		}
+		if !isAcc && p.Comment != "length" {
 			return
 		}
 		for _, e := range p.Edges {
